@@ -23,7 +23,7 @@ import seqgen
 from seqref import FD, OOD
 
 ID = 'C13'
-LEAN_MODULES = ['Yaql.Props.C13']
+LEAN_MODULES = ['Yaql.Props.C13', 'Yaql.Props.C13Opts', 'Yaql.Props.C13Persist']
 REQUIRED_THEOREMS = ['Yaql.Props.C13.' + n for n in (
     'orderBy_perm orderBy_sorted orderBy_stable orderBy_stable_pair stable_sort_unique thenBy_lex cmpFields_append '
     'descending_reverse_of_keys orderBy_sorted_int groupBy_partition groupBy_keys_distinct groupBy_group_content '
@@ -41,7 +41,14 @@ REQUIRED_THEOREMS = ['Yaql.Props.C13.' + n for n in (
     'select_map where_error_position takeWhile_error_position skipWhile_error_position select_never_truncates '
     'where_never_truncates select_congr_dup lam_where_eval lam_first_eval noLazy_of_hashable run_select_lazy run_where_lazy '
     'run_takeWhile_lazy run_skipWhile_lazy take_before_error take_past_error findM_error_position run_indexWhere_eager'
-).split()]
+).split()] + ['Yaql.Props.C13Opts.' + n for n in (
+    'dict_iterable_iff dict_iterates_keys dict_not_iterable iterableDicts_only_dicts limitTo_length limitTo_prefix '
+    'limitTo_small limitTo_raises_iff limitSized_ok_iff finL_length finV_tuple finV_list finV_scalar finV_plain '
+    'finV_set_strict convertInput_frozen hashable_of_frozen convertInput_idem ofInput_raw_list ofInput_raw_dict '
+    'ofInput_converted_list').split()] + ['Yaql.Props.C13Persist.' + n for n in (
+        'operand_unchanged observed_operand_is_pipeline_result observed_update_is_unobserved_update '
+        'letTwice_order_irrelevant letPair_parts letTwice_parts letChain_parts finaliseParts_last mapM_rows '
+        'selPair_rows').split()]
 TRUSTED = ["CPython's sorted() is a stable sort (licensed by stable_sort_unique); Python ==/hash on the generated values "
            "is what Value.pyEq / canon model; iteration order of an input set is read from CPython",
            'harness/seqref.py (plain-Python transcription of the documented meaning, second opinion for every case)']
